@@ -1,7 +1,7 @@
 (* C19 -- no input makes a reader hang: the parts a theorem can carry.  Termination of a Gallina function is trivial; what is
    proved is that the FUEL each link- or stream-driven loop is given -- a function of the input length alone -- is never exhausted,
    for every byte string, so the modelled loops stop after at most that many iterations whatever the links / stream say. *)
-From Pyctr Require Import Base.Prelude Base.ListExt Base.PyInt Base.PySlice Model.Romfs Model.Lzss Model.IvfcBound Proofs.RomfsProofs Proofs.LzssProofs Proofs.IvfcBoundProofs.
+From Pyctr Require Import Base.Prelude Base.ListExt Base.PyInt Base.PySlice Model.Romfs Model.Lzss Model.IvfcBound Proofs.RomfsProofs Proofs.LzssProofs Proofs.IvfcBoundProofs Model.NcchFull Proofs.NcchAvailProofs.
 
 (* RomFS: the first-child / next-sibling walk over the two metadata tables, with fuel len(dirmeta)+1 / len(filemeta)+1 *)
 Theorem C19_romfs_walk_bounded : forall dirmeta filemeta, bytes_ok dirmeta -> bytes_ok filemeta ->
@@ -35,6 +35,16 @@ Print Assumptions C19_lv4_read_output_bounded.
 Example C19_lv4_nonvacuous :
   read_blocks [1; 2; 3; 4; 5; 6; 7; 8; 9; 10] 4 (2 ^ 63) 0 (-1) = Ok [[1; 2; 3; 4]; [5; 6; 7; 8]; [9; 10]].
 Proof. exact bound_nonvacuous. Qed.
+
+(* NCCH: the fully-decrypted view is assembled one 0x200-byte media unit at a time.  Whatever size the header DECLARES (a 32-bit count
+   of media units) and whatever is asked for, one read walks over at most (length of the file) / 0x200 + 2 units. *)
+Theorem C19_fulldec_units_bounded : forall content avail off size, 0 <= off -> 0 <= avail ->
+  fulldec_units content avail off size <= avail / 0x200 + 2.
+Proof. exact fulldec_units_bounded. Qed.
+Print Assumptions C19_fulldec_units_bounded.
+
+Example C19_fulldec_nonvacuous : fulldec_units (0xFFFFFFFF * 0x200) 0x600 0 (0xFFFFFFFF * 0x200) = 3.
+Proof. exact avail_nonvacuous. Qed.
 
 (* a sibling link pointing back into the chain is an error, not a loop (smallest instance: one directory entry whose next-sibling
    link is its own offset) *)
